@@ -267,7 +267,8 @@ class GetGraph(Contract):
     properties = ["C18"]
 
     def pre(self, s, a):
-        return {"graph-wf": graph_wf(s, a.self.e)}
+        return {"graph-wf": graph_wf(s, a.self.e),
+                "current-state-is-a-state": z3.And(CUR_STATE >= FIRST_ADDR, CUR_STATE < s["ghost.alloc"])}
 
     def _done(self, s0, s, a, g, upto_k, cur=None):
         arr, n = states_of(s0, a.self.e)
